@@ -10,7 +10,15 @@ def check_C03(tier, seed):
 
 
 def check_C04(tier, seed):
-    return seqcheck.run("C04", tier, seed, "obj2" if tier == "quick" else "obj3")
+    cfg = "obj2" if tier == "quick" else "obj3"
+    v = seqcheck.run("C04", tier, seed, cfg, finish=False)
+    # second pass: pids that differ only in letter case / are suffixes of one another
+    base = "DOI:10.18739/A2901zh2m"
+    alt = {"p1": base, "p2": base.lower(), "p3": base.upper()}
+    pids = seqcheck.CONFIGS[cfg]["inst"]["pids"]
+    seqcheck.run("C04", tier, seed, cfg, finish=False, verdict=v,
+                 inst_over={"pid_strings": {p: alt[p] for p in pids}})
+    return v.finish()
 
 
 def check_C05(tier, seed):
@@ -341,4 +349,107 @@ def check_C20(tier, seed):
                        "exhaustive": True,
                        "samples": [{k_: records[5][k_] for k_ in ("case", "api_call", "required")}],
                        "checker_cmd": "tlc Client (case enumeration, ApiOf) ; tlc TraceClient"})
+    return v.finish()
+
+
+def check_C18(tier, seed):
+    """Adversarial injective instantiations of pids / formats: the code must behave exactly
+    like the model (in which identifiers are uninterpreted, so nothing can alias) and every
+    file it creates must lie inside the root at a hash-derived location."""
+    from . import walker, adversarial
+    from .ids import Inst
+    v = Verdict("C18", tier, seed, "model_checking")
+    base_kw = dict(pids=["p1", "p2", "p3"], contents=["a", "b"], extras=[], fmts=["fD", "f2", "f3"],
+                   vers=["v1", "v2"])
+    ops = ["store", "tag", "delete", "retrieve", "hex", "putmeta", "getmeta", "delmeta"]
+    small = Inst(pids=["p1", "p2", "p3"], contents=["a", "b"], fmts=["fD", "f2", "f3"], vers=["v1", "v2"])
+    consts = dict(small.constants())
+    consts["Ops"] = ops
+    n_inst = 48 if tier == "quick" else 1500
+    per = 3
+    paths, rr = walker.contract_random_histories(consts, max(1, n_inst * per // 2), seed + 7)
+    paths = (paths * (1 + n_inst * per // max(1, len(paths))))[:n_inst * per]
+    insts, described = [], []
+    for i in range(n_inst):
+        pid_strings, fmt_strings = adversarial.instantiation(seed * 100003 + i)
+        kw = dict(base_kw, pid_strings=pid_strings, fmt_strings=fmt_strings, _contain=True)
+        for _ in range(per):
+            insts.append(kw)
+        described.append({"pid": pid_strings, "fmt": fmt_strings})
+    rootrec = walker.walk_chains(base_kw, paths, per_path_inst=insts)
+    recs, order, parent = walker.flatten(rootrec)
+    viol, drift, jr = walker.judge(recs, consts)
+    v.drift += len(drift)
+    for clause, ns in sorted(viol.items()):
+        for n in ns:
+            chain = walker.lineage(order, parent, n)
+            sidx = chain[0].get("state", 0)
+            kw = insts[sidx] if sidx < len(insts) else {}
+            rec = order[n - 1]
+            desc = {"clause": clause, "op": rec["call"]["op"], "cls": rec["res"]["cls"],
+                    "identifiers": {k: (s_[:40] + ("..." if len(s_) > 40 else ""))
+                                    for k, s_ in kw.get("pid_strings", {}).items()}}
+            v.violation(desc, {"kind": "sequential-instantiated", "clause": clause,
+                               "pid_strings": kw.get("pid_strings"), "fmt_strings": kw.get("fmt_strings"),
+                               "history": [{"call": x["call"], "res": x["res"]} for x in chain],
+                               "how": "replay `history` on a fresh store with the given identifier strings"})
+    def short(d_):
+        return {k: (s_ if len(s_) <= 60 else s_[:57] + "...") for k, s_ in d_.items()}
+    v.coverage.update({"states": len(recs), "transitions": len(recs),
+                       "traces_validated_against_impl": len(paths),
+                       "instantiations": n_inst, "histories_of_150_calls": len(paths),
+                       "observed_steps_judged": len(recs) - 1,
+                       "exhaustive": False,
+                       "samples": [{"pid": short(d_["pid"]), "fmt": short(d_["fmt"])} for d_ in described[:4]],
+                       "checker_cmd": "tlc -simulate MCContract (histories) ; harness walk under adversarial "
+                                      "identifier strings with whole-file-system interposition ; tlc TraceProps (all clauses + C18_*)"})
+    v.assumptions.append("identifiers are drawn by a seeded generator (prefix/suffix/case variants, "
+                         "path tricks, shell/glob characters, control characters, combining/RTL/astral code points, "
+                         "up to ~8 KiB); cids are hex by construction and not in scope")
+    return v.finish()
+
+
+def check_C16(tier, seed):
+    """USE_MULTIPROCESSING=True: (a) the sequential contract walk through the `_mp` branches,
+    (b) the C07/C12 interleaving scenarios and the fault enumeration through the `_mp`
+    branches (multiprocessing primitives replaced by scheduler-aware stand-ins: threads play
+    processes), (c) real forked processes with the real Manager lists and locks contending on
+    shared pids and cids (sampling)."""
+    import os
+    from . import conccheck, crashfault, mpreal
+    v = Verdict("C16", tier, seed, "model_checking")
+    v.also_known_of_clause_property = True
+    allp = {"C01", "C03", "C04", "C05", "C06", "C07", "C08", "C09", "C10", "C11", "C12", "C13",
+            "C17", "C18"}
+    os.environ["HSVERIF_MODE"] = "mp"
+    try:
+        seqcheck.run("C16", tier, seed, "obj2", finish=False, verdict=v, props=allp,
+                     random_histories=8 if tier == "quick" else 64)
+        seq_cov = dict(v.coverage)
+        n_drift_seq = v.drift
+        fres = crashfault.run(tier, ("fault",))
+        fviol, fr, nc, nf = crashfault.judge(fres)
+        crashfault.report(v, fres, fviol, allp, nc, nf)
+        fault_cov = dict(v.coverage)
+    finally:
+        os.environ.pop("HSVERIF_MODE", None)
+    for family, inst_kw in (("C07", conccheck.OBJ_INST), ("C12", conccheck.META_INST)):
+        results = conccheck.run_family(family, tier, mode="mp")
+        viol, r, n_out, n_states = conccheck.judge(results, inst_kw)
+        conccheck.report(v, results, viol, allp, r, n_out, n_states)
+    real = mpreal.run(tier, seed)
+    rviol, rr, n_out, n_states = conccheck.judge(real, conccheck.OBJ_INST)
+    conccheck.report(v, real, rviol, allp, rr, n_out, n_states)
+    v.coverage["sequential_mp"] = {k: seq_cov.get(k) for k in
+                                   ("contract_store_states", "observed_steps_judged",
+                                    "random_histories_150_calls_one_instance_each")}
+    v.coverage["fault_injections_mp"] = fault_cov.get("fault_injections")
+    v.coverage["real_process_trials"] = sum(r_["runs"] for r_ in real)
+    v.coverage["traces_validated_against_impl"] = v.coverage.get("traces_validated_against_impl", 0) \
+        + (seq_cov.get("traces_validated_against_impl") or 0)
+    v.coverage["checker_cmd"] = ("HSVERIF_MODE=mp: tlc MCContract + TraceProps ; harness.conc (mode=mp) + tlc TraceLin ; "
+                                 "harness.crashfault (mp) + tlc TraceFault ; harness.mpreal (forked processes) + tlc TraceLin")
+    v.assumptions += ["(a),(b): threads play processes through the `_mp` branches with stand-in primitives: "
+                      "every interleaving of the code paths, not the IPC machinery",
+                      "(c): real multiprocessing.Manager lists/locks, forked workers, OS scheduling: sampling"]
     return v.finish()
